@@ -35,7 +35,7 @@ class Hist:
         """now and then the history continues on a COPY of the whole world (item 49: deep copy, or a pickle round trip with protocol
         2, 4 or 5); whatever the copy lost or kept by mistake shows in everything observed afterwards"""
         if self.items and self.rng.random() < self.cfg.get("copy_rate", 0.02):
-            self.emit([49, self.rng.choice([0, 0, 2, 4, 5, 9, 9])])          # (9: the IRs are forgotten and found again through a child)
+            self.emit([49, self.rng.choice([0, 0, 2, 4, 5, 9, 8, 8])])          # (9: the IRs are forgotten and found again through a child; 8: only the blocks are held)
 
     def fresh_uuid(self):
         u = self.rng.getrandbits(128)
